@@ -144,7 +144,12 @@ Definition ostep (fl : oflags) (s : ostate) (o : sop) (r : sres) : option ostate
   | SSave _ id off, RSave true => Some {| o_log := o_log s; o_pos := o_pos s; o_subs := sub_set (o_subs s) id off |}
   | SSave _ id off, RSave false => match pos_of s off with None => Some s | Some _ => None end
   | SLoad _ id, RLoad (Some off) =>
-      if bytes_eqb off (match sub_get (o_subs s) id with Some o => o | None => [] end) then Some s else None
+      (* the saved offset comes back: the same string, or - for a string this store never issued, e.g. another
+         store's zero-padded format - the store's own spelling of the same position ("0003" / "3", "" / "0") *)
+      let want := match sub_get (o_subs s) id with Some o => o | None => [] end in
+      if bytes_eqb off want ||
+         match parse_offset off, parse_offset want with Some x, Some y => Z.eqb x y | _, _ => false end
+      then Some s else None
   | _, _ => None
   end.
 
